@@ -68,7 +68,9 @@ def fix_braces(pieces):
     """keep pieces from fusing into other brace tokens: a blank text piece goes between `…{` and `{…`"""
     out = []
     for p in pieces:
-        if out and piece_src(out[-1]).endswith("{") and piece_src(p).startswith("{"):
+        if out and out[-1] == ("text", "{{{{") and p[0] in ("var", "lit") and (len(out) < 2 or not piece_src(out[-2]).endswith("{")) and len(pieces) % 2 == 0:
+            pass        # an escaped `{{` directly followed by an interpolation: a run of six opening braces
+        elif out and piece_src(out[-1]).endswith("{") and piece_src(p).startswith("{"):
             out.append(("text", " "))
         out.append(p)
     return out
